@@ -107,6 +107,7 @@ impl Stats {
         self.bump("batched_wakeups", h.stats.batched_fires);
         self.bump("timer_oversleep", h.stats.oversleeps);
         self.bump("busy_poll_time_jump", h.stats.busy_jumps);
+        self.bump("slow_consumer_stall", h.stats.consumer_stalls);
         for (k, v) in &h.probes {
             *self.probes.entry(k.clone()).or_insert(0) += v;
         }
